@@ -1,0 +1,88 @@
+//go:build verif
+
+package partialmessages
+
+import (
+	"sort"
+
+	"github.com/libp2p/go-libp2p/core/peer"
+)
+
+// Read-only views of the extension's bookkeeping for the verification harness
+// (extension family X04). Nothing here is compiled without the verif tag.
+
+// VerifGroup is one entry of statePerTopicPerGroup.
+type VerifGroup struct {
+	Topic, Group string
+	TTL          int
+	InitiatedBy  peer.ID   // "" when locally initiated
+	Peers        []peer.ID // keys of the per-peer state, sorted
+}
+
+// VerifCounter is one entry of peerInitiatedGroupCounter.
+type VerifCounter struct {
+	Topic   string
+	Total   int
+	PerPeer map[peer.ID]int
+}
+
+// VerifX04State is a copy of everything the extension keeps.
+type VerifX04State struct {
+	Groups      []VerifGroup
+	EmptyTopics []string // topics present in statePerTopicPerGroup without any group
+	Counters    []VerifCounter
+	LimitTopic  int
+	LimitPeer   int
+	GroupTTL    int
+}
+
+// VerifX04Snapshot copies the bookkeeping. The caller must be the goroutine
+// that owns the extension (the pubsub event loop, or the only goroutine of a
+// unit driver).
+func (e *PartialMessagesExtension[PeerState]) VerifX04Snapshot() *VerifX04State {
+	st := &VerifX04State{LimitTopic: e.PeerInitiatedGroupLimitPerTopic, LimitPeer: e.PeerInitiatedGroupLimitPerTopicPerPeer,
+		GroupTTL: e.GroupTTLByHeatbeat}
+	for topic, tState := range e.statePerTopicPerGroup {
+		if len(tState) == 0 {
+			st.EmptyTopics = append(st.EmptyTopics, topic)
+		}
+		for group, gState := range tState {
+			g := VerifGroup{Topic: topic, Group: group, TTL: gState.groupTTL, InitiatedBy: gState.initiatedBy}
+			for p := range gState.peerState {
+				g.Peers = append(g.Peers, p)
+			}
+			sort.Slice(g.Peers, func(i, j int) bool { return g.Peers[i] < g.Peers[j] })
+			st.Groups = append(st.Groups, g)
+		}
+	}
+	sort.Slice(st.Groups, func(i, j int) bool {
+		if st.Groups[i].Topic != st.Groups[j].Topic {
+			return st.Groups[i].Topic < st.Groups[j].Topic
+		}
+		return st.Groups[i].Group < st.Groups[j].Group
+	})
+	sort.Strings(st.EmptyTopics)
+	for topic, ctr := range e.peerInitiatedGroupCounter {
+		c := VerifCounter{Topic: topic, Total: ctr.total, PerPeer: make(map[peer.ID]int, len(ctr.perPeer))}
+		for p, n := range ctr.perPeer {
+			c.PerPeer[p] = n
+		}
+		st.Counters = append(st.Counters, c)
+	}
+	sort.Slice(st.Counters, func(i, j int) bool { return st.Counters[i].Topic < st.Counters[j].Topic })
+	return st
+}
+
+// VerifPeerStates returns a copy of the per-peer state map of one group (nil
+// if the group does not exist).
+func (e *PartialMessagesExtension[PeerState]) VerifPeerStates(topic, group string) map[peer.ID]PeerState {
+	gState, ok := e.statePerTopicPerGroup[topic][group]
+	if !ok {
+		return nil
+	}
+	out := make(map[peer.ID]PeerState, len(gState.peerState))
+	for p, s := range gState.peerState {
+		out[p] = s
+	}
+	return out
+}
